@@ -100,8 +100,8 @@ let handle = function
                 match String.split_on_char ',' op with
                 | ["e"; ctx; spec; boots; time] ->
                   (match priv_encrypt !k { s_engine_id = bytes_of_hex ctx; s_pdu = build_pdu spec } (z_of_string boots) (z_of_string time) with
-                   | Ok ((k', ct), pp) -> k := k'; "E " ^ hx ct ^ " " ^ hx pp
-                   | Err e -> "ERR " ^ ename e | Panic -> "PANIC")
+                   | (k', Ok (ct, pp)) -> k := k'; "E " ^ hx ct ^ " " ^ hx pp
+                   | (k', Err e) -> k := k'; "ERR " ^ ename e | (k', Panic) -> k := k'; "PANIC")
                 | ["d"; pp; boots; time; data] ->
                   let u = { u_engine_id = []; u_engine_boots = z_of_string boots; u_engine_time = z_of_string time;
                             u_user_name = []; u_auth_params = []; u_privacy_params = bytes_of_hex pp } in
@@ -125,7 +125,8 @@ let handle = function
     res (v3_set_keys (parse_sess sess) (bytes_of_hex user) (z_of_string aalg) (bytes_of_hex akey) (z_of_string palg)
            (bytes_of_hex pkey) (z_of_string seed)) (fun s -> "OK " ^ render_sess s)
   | ["v3emit"; sess; spec; rndmsg] ->
-    res (v3_push_pdu (parse_sess sess) (build_pdu spec) (z_of_string rndmsg)) (fun (s, d) -> "OK " ^ hx d ^ " " ^ render_sess s)
+    let (s, r) = v3_push_pdu (parse_sess sess) (build_pdu spec) (z_of_string rndmsg) in
+    res r (fun d -> "OK " ^ hx d) ^ " " ^ render_sess s
   | "v3recv" :: sess :: ds ->
     let (s, r) = v3_recv_loop (parse_sess sess) (List.map bytes_of_hex ds) in
     (match r with
